@@ -35,9 +35,11 @@ FileAccepted(f) == f.pc \in AcceptedPathClasses /\ f.parsable
 
 \* attribute spellings that make a top-level function a Tauri command
 CommandAttrs == {"tauri_command", "command", "tauri_command_args", "command_args",
-                 "tauri_command_after_other", "tauri_command_before_other", "tauri_command_with_doc"}
+                 "tauri_command_after_other", "tauri_command_before_other", "tauri_command_with_doc",
+                 \* ... standing after / between attributes whose paths have two and three segments themselves
+                 "tauri_command_after_qualified", "command_after_qualified_args", "tauri_command_between_qualified"}
 \* spellings that do not
-OtherAttrs == {"none", "other_command", "tauri_other", "command_in_doc_only"}
+OtherAttrs == {"none", "other_command", "tauri_other", "command_in_doc_only", "qualified_only"}
 
 IsCommand(it) == it.k = "fn" /\ it.pos = "top" /\ it.attr \in CommandAttrs
 
